@@ -6,7 +6,7 @@ CONFIG = {
         "files": ["ledger/eval/zz_verif_c18_test.go", "ledger/eval/zz_verif_c19_test.go"],
         "util": [("ledger/eval", "eval")],
         "env": {"quick": {"VERIF_C19_UNIVERSES": 90, "VERIF_C19_BLOCKS": 8, "VERIF_C19_GROUPS": 12},
-                "thorough": {"VERIF_C19_UNIVERSES": 3000, "VERIF_C19_BLOCKS": 10, "VERIF_C19_GROUPS": 14}},
+                "thorough": {"VERIF_C19_UNIVERSES": 2400, "VERIF_C19_BLOCKS": 10, "VERIF_C19_GROUPS": 14}},
         "timeout": {"quick": 600, "thorough": 3000},
     }],
     "rule": "one case = one block of the real BlockEvaluator over a closed 9-account ledger; about every second group carries a failing member "
